@@ -141,13 +141,24 @@ def explore_lines(prop, cfg, tier, seed, work, result, T):
                     l = l.strip()
                     if l and not l.startswith('#'):
                         lines.append(l)
-            rc, o = T['run']([T['harness_bin'](), 'run'], stdin='\n'.join(lines) + '\n')
-            for k, l in enumerate(o.split('\n')):
-                if l:
-                    eng, cid, rest = l.split(' ', 2)
-                    cid = 'corpus-%d' % k
-                    meta[cid] = ('corpus', '')
-                    out.write('%s %s %s\n' % (eng, cid, rest))
+            for k, cl in enumerate(lines):
+                # one process per corpus case, under a time limit: a case that no longer returns is a finding, not a crash of the check
+                try:
+                    rc, o = T['run']([T['harness_bin'](), 'run'], stdin=cl + '\n', timeout=CASE_LIMIT[tier] * 3)
+                    how = None if rc == 0 else 'the process died (exit status %s)' % rc
+                except subprocess.TimeoutExpired:
+                    o, how = '', 'did not return within %d s' % (CASE_LIMIT[tier] * 3)
+                if how:
+                    rec = {'id': 'corpus-%d' % k, 'line': cl, 'class': 'corpus', 'field': 'returns', 'model': 'returns (totality theorem)',
+                           'impl': how, 'clause': prop + ':implementation-does-not-return'}
+                    (result['specfails'] if cfg.get('hang_is_violation', True) else result['divergences']).append(rec)
+                    continue
+                for l in o.split('\n'):
+                    if l:
+                        eng, cid, rest = l.split(' ', 2)
+                        cid = 'corpus-%d' % k
+                        meta[cid] = ('corpus', '')
+                        out.write('%s %s %s\n' % (eng, cid, rest))
         profiles = ['debug'] + (['release'] if tier == 'thorough' else [])
         for prof in profiles:
             base = os.path.join(work, 'run-' + prof)
